@@ -50,7 +50,7 @@ def _nested(tier):
 
 def shapes(tier, seed):
     out = []
-    base = [sh for sh in c06.shapes(tier, seed) if not (sh.get("sqlcount") or sh.get("processor") or sh.get("kind") == "processed")]
+    base = [sh for sh in c06.shapes(tier, seed) if not (sh.get("sqlcount") or sh.get("processor") or sh.get("shared") or sh.get("kind") == "processed")]
     for sh in base + _nested(tier):
         for ex in (False, True):
             for decl in ("loose", "zero", "some") if not ex else ("loose", "some"):
